@@ -68,6 +68,8 @@ pub struct Req {
     /// application-level `web::JsonConfig` registered as app data (actix only): the framework's
     /// extractor honours it, so must the deserr one
     pub cfg: Option<String>,
+    /// judge the rejection in the harness itself (very large messages)
+    pub big: bool,
 }
 
 fn actix_parts(r: &Req) -> (actix_web::HttpRequest, actix_web::dev::Payload) {
@@ -119,6 +121,24 @@ pub fn run_http<T: Deserr<JsonError> + Deserr<CErr<422>> + Deserr<CErr<200>> + T
     use actix_web::FromRequest as _;
     use axum::extract::FromRequest as _;
     use axum::response::IntoResponse as _;
+    if r.big {
+        // very large rejection messages are judged here (Coq parses such literals too slowly): the body of the rejection
+        // must be exactly the message of the deserr error obtained by deserializing the same document directly
+        let doc: J = match serde_json::from_slice(&r.body) { Ok(d) => d, Err(_) => return json!({"big": "not json"}) };
+        let direct = deserr::deserialize::<T, J, JsonError>(doc).map(|_| ()).map_err(|e| e.to_string());
+        let (req, mut pl) = actix_parts(r);
+        let a = match block_on(AwebJson::<T, JsonError>::from_request(&req, &mut pl)) { Ok(_) => Ok(()), Err(e) => Err(actix_err(e)) };
+        let x = match block_on(AxumJson::<T, JsonError>::from_request(axum_req(r), &())) { Ok(_) => Ok(()), Err(e) => Err(axum_resp(e.into_response())) };
+        let same = |got: &Result<(), J>| match (&direct, got) {
+            (Ok(()), Ok(())) => true,
+            (Err(m), Err(j)) => j["rej"]["status"] == json!(400) && j["rej"]["body"].as_str() == Some(m.as_str()),
+            _ => false,
+        };
+        return json!({"big": true, "direct_is_err": direct.is_err(), "msg_len": direct.as_ref().err().map(|m| m.len()).unwrap_or(0),
+                      "actix_same": same(&a), "axum_same": same(&x),
+                      "actix_body_len": a.as_ref().err().map(|j| j["rej"]["body"].as_str().map(|b| b.len()).unwrap_or(0)).unwrap_or(0),
+                      "axum_body_len": x.as_ref().err().map(|j| j["rej"]["body"].as_str().map(|b| b.len()).unwrap_or(0)).unwrap_or(0)});
+    }
     // actix JSON: oracle then extractor, on identical requests
     let (req, mut pl) = actix_parts(r);
     let fw_actix = match block_on(actix_web::web::Json::<J>::from_request(&req, &mut pl)) {
@@ -193,6 +213,7 @@ fn main() {
             content_type: j["content_type"].as_str().map(|s| s.to_string()),
             query: j["query"].as_str().unwrap_or("").to_string(),
             cfg: j["cfg"].as_str().map(|s| s.to_string()),
+            big: j["big"].as_bool().unwrap_or(false),
         };
         let tid = j["tid"].as_u64().unwrap() as u32;
         let res = std::panic::catch_unwind(std::panic::AssertUnwindSafe(|| generated::dispatch_http(tid, &r)));
